@@ -354,7 +354,7 @@ def check_routines(ctx, rule='N5'):
             d = sel[0]
             ok = len(d[1]) == 1 and d[1][0][0] == 'each'
             # outer loop over our transforms (local preference), inner over the peer's; chosen: ours[type] = ours (or the equal peer one)
-            e1 = d[1][0]
+            e1 = d[1][0] if ok else None
             if ok:
                 inner = e1[4]
                 layers = [e1]
